@@ -86,7 +86,6 @@ for _p, _r in {
 
     'C14': 'interleavings of concurrent processes: sequential contract-based VCs cannot quantify over schedules and no '
            'concurrency logic/verifier is available (DESIGN.md section 5, C14)',
-    'C20': 'check not built yet',
 }.items():
     NA[_p] = _r
 
@@ -180,3 +179,13 @@ bounded('C13',
         'was not built: this is the enumeration that would have validated it.',
         'fault enumeration of the real code in killed child processes against an old-or-new recovery contract (bounded stand-in for the effect-sequence proof)',
         category='fault_enumeration')
+
+bounded('C20',
+        'Bounded (not a proof): for all 12 decorator classes, 96 configurations and every history prefix of <=3 (thorough: <=4) operations, the '
+        'function is round-tripped through dill; the clone must equal the original in cache contents, archive contents, statistics, maxsize '
+        'and archived() flag, must stay equal through 7 lock-step continuations (same results, same evictions, same statistics), and continuing '
+        'a clone alone must leave the original\'s in-memory state unchanged.',
+        'DESIGN.md 5 C20',
+        'dill\'s by-value, sharing-preserving copy of closures is an assumed contract and is most of the property; rr_cache is compared with the '
+        'global random generator re-seeded before each lock-step operation; persistent archives (shared storage by design) are not in the scope.',
+        TECH_B.replace('deal contracts on sidecar wrappers of the real functions', 'run-time lock-step comparison of the real decorated function and its dill clone'))
